@@ -133,7 +133,12 @@ func independent(a, b transID) bool {
 func (e *Exec) pick(trans []transition) transition {
 	ss := e.ss
 	if len(ss.threads) == 1 {
-		return trans[0]
+		// a single thread can still face a choice: a select with several ready cases
+		k := 0
+		if len(trans) > 1 {
+			k = e.Sched(len(trans))
+		}
+		return trans[k]
 	}
 	ids := make([]transID, len(trans))
 	var cands []int
